@@ -195,6 +195,8 @@ pub struct World {
     pub follow: std::collections::VecDeque<crate::hist::Act>,
     /// set by checks whose oracle tolerates coins attached to PayFunding (C03)
     pub stray_funding_coins: bool,
+    /// owner of each vAMM (the deployment's owner account, or the insurance fund where the deployment handed the markets to it)
+    pub vamm_admins: Vec<String>,
 }
 
 fn c_cw20() -> Box<dyn Contract<Empty>> {
@@ -715,6 +717,7 @@ impl World {
             created_at: (0, 0),
             follow: Default::default(),
             stray_funding_coins: false,
+            vamm_admins: vec![],
         };
         // a deployment is used from the block after its creation (see DESIGN C15)
         w.created_at = (w.now(), w.height());
@@ -722,6 +725,10 @@ impl World {
         Ok(w)
     }
 
+    /// the account that currently owns vAMM `v` (tracked from the deployment and the harness's own transfers)
+    pub fn vamm_admin(&self, v: usize) -> &str {
+        self.vamm_admins.get(v).map(|s| s.as_str()).unwrap_or(self.owner.as_str())
+    }
     pub fn idx_engine(&self) -> usize {
         N_TRADERS + 4
     }
